@@ -277,7 +277,7 @@ CLAIMED["C09"] = dict(
     "ghost-free view and with an explicit index selects what the counting evaluator selects there; _join_delete_insert keeps the "
     "accepted text; the accept simulation at tree level for all actions (C09_accept_simulation: no text tags, no "
     "use_replace, tree before finalize - if the patcher accepts the script, every formatter handler succeeds and the accepted view "
-    "of the working tree, ghosts dropped, diff: attributes removed, marked texts read back, is the patched tree up to a one-to-one renaming of node ids - the patcher is proved independent of ids); one text update end to end at text level (C09_text_update_accept: _make_diff_tags on the modelled diff_main + "
+    "of the working tree, ghosts dropped, diff: attributes removed, marked texts read back, is the patched tree up to a one-to-one renaming of node ids - the patcher is proved independent of ids; for the scripts of the model differ all script-level hypotheses are discharged: C09_differ_script); one text update end to end at text level (C09_text_update_accept: _make_diff_tags on the modelled diff_main + "
     "diff_cleanupSemantic of two texts without private-use characters, then undo_string: accepting every wrapper spells the new text). PARTIAL: text tags, use_replace and the accepted view after finalize at tree level are not proved; the property is decided on every run "
     "by the accept-all projection of the real output against R. Known findings X1 (text after a comment lost) and X2 (tail of a "
     "deleted / moved node unmarked) are violations of the pinned code that cannot be repaired without editing golden-file tests.",
